@@ -19,6 +19,10 @@ CONSTANTS
   TrackOrder = FALSE
   WithDemotion = FALSE
   ReadonlyEverywhere = TRUE
+  MaxMigs = 1
+  StaleTableAtStart = FALSE
+  MaxFollowed = 0
   Pipelined = TRUE
   MaxBurst = 4
+  HoldRefresh = FALSE
 CHECK_DEADLOCK FALSE
